@@ -30,6 +30,12 @@ Definition ws_s15 : bytes := Eval vm_compute in ws_str "coap".
 Definition ws_s16 : bytes := Eval vm_compute in ws_str "keep-alive, Upgrade".
 Definition ws_s17 : bytes := Eval vm_compute in ws_str "websocket".
 
+Definition ws_c_http : bytes := Eval vm_compute in ws_str "HTTP/1.1".
+Definition ws_c_accept_name : bytes := Eval vm_compute in ws_str "Sec-WebSocket-Accept:".
+Definition ws_c_accept_val : bytes := Eval vm_compute in ws_str "Bz3qJYTGdOe8gUSpLosEdiLKDrk=".
+Definition ws_c_resp1 : bytes := Eval vm_compute in ws_str "HTTP/1.1 101 Switching Protocols".
+Definition ws_c_resp4 : bytes := Eval vm_compute in ws_str "Sec-WebSocket-Accept: Bz3qJYTGdOe8gUSpLosEdiLKDrk=".
+
 (* tolower in the C locale *)
 Definition ws_lower (b : Z) : Z := if (65 <=? b) && (b <=? 90) then b + 32 else b.
 
@@ -130,3 +136,80 @@ Definition ws_request_lines : list bytes :=
    ws_s2; ws_s7;
    ws_s9; ws_s11; []].
 Definition ws_request : bytes := List.concat (List.map (fun l => l ++ ws_crlf) ws_request_lines).
+
+(* ---- client side: coap_ws_rd_http_header_client ---- *)
+
+Fixpoint ws_beq (a b : bytes) : bool :=      (* strcmp(a, b) == 0 *)
+  match a, b with
+  | [], [] => true
+  | x :: a', y :: b' => (x =? y) && ws_beq a' b'
+  | _, _ => false
+  end.
+
+(* atoi: leading white space, optional sign, digits *)
+Fixpoint ws_skip_space (l : bytes) : bytes :=
+  match l with
+  | b :: r => if (b =? 32) || ((9 <=? b) && (b <=? 13)) then ws_skip_space r else l
+  | [] => []
+  end.
+Fixpoint ws_digits (acc : Z) (l : bytes) : Z :=
+  match l with
+  | b :: r => if (48 <=? b) && (b <=? 57) then ws_digits (acc * 10 + (b - 48)) r else acc
+  | [] => acc
+  end.
+Definition ws_atoi (l : bytes) : Z :=
+  match ws_skip_space l with
+  | 45 :: r => - ws_digits 0 r
+  | 43 :: r => ws_digits 0 r
+  | r => ws_digits 0 r
+  end.
+
+(* The Sec-WebSocket-Accept value is compared with the hash of the key the client sent; the
+   driver makes the client's key deterministic (bytes 0..15), so the expected value is a constant. *)
+Definition ws_client_check (f : ws_flags) (line : bytes) : option (ws_flags * bool) :=
+  if negb (wf_first f) then
+    match ws_split line with
+    | None => None      (* the C dereferences a null pointer for exactly "HTTP/1.1"; see notes *)
+    | Some (name, value) =>
+        if ws_beq name ws_c_http && (ws_atoi value =? 101)
+        then Some (mkWsFlags true (wf_host f) (wf_upg f) (wf_conn f) (wf_key f) (wf_proto f) (wf_ver f), false)
+        else None
+    end
+  else
+    match ws_split line with
+    | None => None
+    | Some (name, value) =>
+        let e := ws_is_nil name in
+        if ws_ieq name ws_s13 then
+          if wf_upg f then None
+          else if ws_ieq value ws_s17
+          then Some (mkWsFlags (wf_first f) (wf_host f) true (wf_conn f) (wf_key f) (wf_proto f) (wf_ver f), e)
+          else None
+        else if ws_ieq name ws_s1 then
+          if wf_conn f then None
+          else if ws_ieq value ws_s12
+          then Some (mkWsFlags (wf_first f) (wf_host f) (wf_upg f) true (wf_key f) (wf_proto f) (wf_ver f), e)
+          else None
+        else if ws_ieq name ws_c_accept_name then
+          if wf_key f then None
+          else if ws_beq value ws_c_accept_val
+          then Some (mkWsFlags (wf_first f) (wf_host f) (wf_upg f) (wf_conn f) true (wf_proto f) (wf_ver f), e)
+          else None
+        else if ws_ieq name ws_s8 then
+          if wf_proto f then None
+          else if ws_ieq value ws_s15
+          then Some (mkWsFlags (wf_first f) (wf_host f) (wf_upg f) (wf_conn f) (wf_key f) true (wf_ver f), e)
+          else None
+        else Some (f, e)
+    end.
+
+Definition ws_client_done (f : ws_flags) : bool :=
+  wf_first f && wf_upg f && wf_conn f && wf_key f && wf_proto f.
+
+Definition ws_client_cfg (fx : ws_fix) : ws_cfg :=
+  mkWsCfg false 1472 fx ws_client_check ws_client_done.
+
+(* the response libcoap's own server sends (COAP_WS_RESPONSE) for the key 00 01 .. 0f *)
+Definition ws_response_lines : list bytes :=
+  [ws_c_resp1; ws_s14; ws_s2; ws_c_resp4; ws_s9; []].
+Definition ws_response : bytes := List.concat (List.map (fun l => l ++ ws_crlf) ws_response_lines).
